@@ -81,6 +81,7 @@ func classifyStall(dump string) (blocked []string, sig string) {
 		lines := strings.Split(g, "\n")
 		fn := ""
 		lib := false
+		blockedLoc := ""
 		for i := 1; i+1 < len(lines); i += 2 {
 			f := strings.TrimSpace(lines[i])
 			loc := strings.TrimSpace(lines[i+1])
@@ -88,6 +89,7 @@ func classifyStall(dump string) (blocked []string, sig string) {
 				continue
 			}
 			fn = f
+			blockedLoc = loc
 			lib = strings.HasPrefix(loc, root) && !strings.Contains(loc, "zz_verif_")
 			if !lib && harnessLineTakesLibraryLock(loc) {
 				// a harness accessor (monitor, view helper) waiting for one of the library's own locks
@@ -107,7 +109,7 @@ func classifyStall(dump string) (blocked []string, sig string) {
 		fn = strings.TrimPrefix(fn, "github.com/hashicorp/memberlist.")
 		// harness limitation, not a library deadlock: a second Leave/Shutdown waiting for the
 		// first one, which the scheduler holds parked at a yield site inside the locked region
-		if fn == "(*Memberlist).Leave" || fn == "(*Memberlist).Shutdown" {
+		if (fn == "(*Memberlist).Leave" || fn == "(*Memberlist).Shutdown") && sourceLineMatches(blockedLoc, leaveShutdownLockRe) {
 			continue
 		}
 		if sig == "" {
@@ -144,7 +146,7 @@ func startStallMonitor(emit func(v any)) {
 				out.Reach, out.Stats, out.Faults = res.Reach, res.Stats, res.Faults
 			}
 			if len(blocked) > 0 {
-				msg := fmt.Sprintf("the simulation stopped making progress for %v of real time: %d goroutine(s) wait in library code for a sync mutex that is never released (deadlock); first at %s:\n%s", limit, len(blocked), sig, strings.Join(firstN(blocked, 2), "\n\n"))
+				msg := fmt.Sprintf("the simulation stopped making progress for %v of real time: %d goroutine(s) wait in library code for a sync mutex whose holder never releases it or is itself blocked on the network / a timer while holding it (deadlock, or a lock held across a blocking operation); first at %s:\n%s", limit, len(blocked), sig, strings.Join(firstN(blocked, 2), "\n\n"))
 				if hold := parkedInLibrary(dump); len(hold) > 0 {
 					msg += "\n\ngoroutines parked by the scheduler inside library code (a lock they hold across the yield site is held forever only if the library took it before a call that itself needs it):\n" + strings.Join(firstN(hold, 2), "\n\n")
 				}
@@ -215,4 +217,25 @@ func harnessLineTakesLibraryLock(loc string) bool {
 		return false
 	}
 	return libLockRe.MatchString(lines[n-1])
+}
+
+var leaveShutdownLockRe = regexp.MustCompile(`\.(leaveLock|shutdownLock)\.`)
+
+// sourceLineMatches reads "<file>:<line> +0x.." from the library tree and matches the line.
+func sourceLineMatches(loc string, re *regexp.Regexp) bool {
+	loc, _, _ = strings.Cut(loc, " ")
+	file, line, ok := strings.Cut(loc, ":")
+	if !ok {
+		return false
+	}
+	b, err := os.ReadFile(file)
+	if err != nil {
+		return false
+	}
+	n, err := strconv.Atoi(line)
+	lines := strings.Split(string(b), "\n")
+	if err != nil || n < 1 || n > len(lines) {
+		return false
+	}
+	return re.MatchString(lines[n-1])
 }
